@@ -34,7 +34,7 @@ mod imp {
     }
 
     /// Extra accepted query shapes the repository corpus does not contain (numbers schema).
-    const EXTRA: [(&str, &str); 20] = [
+    const EXTRA: [(&str, &str); 28] = [
         ("x_tag_twice_in_fold", r#"{ Number(min: 2, max: 4) { value @tag(name: "v") @output multiple(max: 3) @fold { value @output(name: "m") @filter(op: ">", value: ["%v"]) @filter(op: "!=", value: ["%v"]) } } }"#),
         ("x_tag_in_fold_and_nested_fold", r#"{ Number(min: 2, max: 4) { value @tag(name: "v") @output multiple(max: 3) @fold { value @output(name: "m") @filter(op: ">", value: ["%v"]) divisor @fold { value @output(name: "d") @filter(op: "<=", value: ["%v"]) } } } }"#),
         ("x_tag_only_in_nested_fold", r#"{ Number(min: 2, max: 4) { name @output value @tag(name: "v") multiple(max: 3) @fold { value @output(name: "m") divisor @fold { value @output(name: "d") @filter(op: "<=", value: ["%v"]) } } } }"#),
@@ -54,6 +54,14 @@ mod imp {
         ("x_tag_used_by_other_property_same_vertex", r#"{ Number(min: 0, max: 6) { value @output name @tag(name: "n") vowelsInName @filter(op: "not_contains", value: ["%n"]) } }"#),
         ("x_tag_used_by_same_vertex_and_fold", r#"{ Number(min: 2, max: 6) { name @output value @tag(name: "v") successor { value @tag(name: "s") name @filter(op: "!=", value: ["$nm"]) predecessor { value @filter(op: "<", value: ["%s"]) @filter(op: "=", value: ["%v"]) } } } }"#),
         ("x_two_properties_tagged_on_inner_vertex", r#"{ Number(min: 2, max: 5) { value @output successor { name @tag(name: "sn") value @tag(name: "sv") successor { name @output(name: "n2") @filter(op: "!=", value: ["%sn"]) value @filter(op: ">", value: ["%sv"]) } } } }"#),
+        ("x_optional_tag_used_on_sibling_gt", r#"{ Number(min: 0, max: 5) { value @output predecessor @optional { value @tag(name: "p") } successor { value @output(name: "s") @filter(op: ">", value: ["%p"]) } } }"#),
+        ("x_optional_tag_used_on_sibling_lt", r#"{ Number(min: 0, max: 5) { value @output predecessor @optional { value @tag(name: "p") } successor { value @output(name: "s") @filter(op: "<", value: ["%p"]) } } }"#),
+        ("x_optional_tag_used_in_sibling_fold", r#"{ Number(min: 0, max: 5) { value @output predecessor @optional { value @tag(name: "p") } multiple(max: 3) @fold { value @output(name: "m") @filter(op: ">", value: ["%p"]) } } }"#),
+        ("x_nested_optional_tag_used_later", r#"{ Number(min: 0, max: 5) { value @output predecessor @optional { predecessor @optional { value @tag(name: "pp") } } successor { value @output(name: "s") @filter(op: "!=", value: ["%pp"]) successor { value @filter(op: ">", value: ["%pp"]) } } } }"#),
+        ("x_regex_with_tag", r#"{ Number(min: 0, max: 9) { value @output name @tag(name: "n") successor { name @output(name: "sn") @filter(op: "regex", value: ["%n"]) } } }"#),
+        ("x_not_regex_with_tag", r#"{ Number(min: 0, max: 9) { value @output name @tag(name: "n") successor { name @output(name: "sn") @filter(op: "not_regex", value: ["%n"]) } } }"#),
+        ("x_not_regex_with_tag_on_multiple", r#"{ Number(min: 0, max: 9) { value @output name @tag(name: "n") multiple(max: 3) { name @output(name: "mn") @filter(op: "not_regex", value: ["%n"]) } } }"#),
+        ("x_regex_with_optional_tag", r#"{ Number(min: 0, max: 6) { value @output predecessor @optional { name @tag(name: "pn") } successor { name @output(name: "sn") @filter(op: "not_regex", value: ["%pn"]) } } }"#),
         ("x_variable_used_twice", r#"{ Number(min: 0, max: 5) { value @output @filter(op: ">=", value: ["$x"]) successor { value @filter(op: "!=", value: ["$x"]) } } }"#),
     ];
 
